@@ -387,3 +387,30 @@ package keeper
 //@   flag pure=IsOptedIn,Wrap,Sprintf
 //@   ensures[C05.goouv.optedin] defined(res_IsOptedIn_0) && (res_IsOptedIn_0 && operatorAddr != "" && err == nil ==> defined(res_Get_0) &&
 //@        r0 == unm["x/operator/types.OperatorOptedUSDValue"](res_Get_0))
+
+// ---------------------------------------------------------------------------------------------
+// C18 (the exported document holds every collection of the module's store): each field of the exported state is what the
+// accessor of its own collection returned. The chain -> consensus address -> operator index has entries that no other
+// collection implies - the keys that were replaced and wait for the end of their unbonding epochs (x/dogfood prune
+// queue) - and no accessor: C18.oeg.reverse names the call that would have to exist, and stands as known finding F-GEN-5.
+//@ func (Keeper).ExportGenesis
+//@   flag noframe
+//@   flag pure=AllOperators,GetAllOperatorConsKeyRecords,GetAllOptedInfo,GetAllAVSUSDValues,GetAllOperatorUSDValues,GetAllSlashStates,GetAllPrevConsKeys,GetAllOperatorKeyRemovals,Wrap,Error
+//@   ensures[C18.oeg.operators] defined(res_AllOperators_0) && r0.Operators == res_AllOperators_0
+//@   ensures[C18.oeg.records]   defined(res_GetAllOperatorConsKeyRecords_0) && r0.OperatorRecords == res_GetAllOperatorConsKeyRecords_0
+//@   ensures[C18.oeg.optstates] defined(res_GetAllOptedInfo_0) && r0.OptStates == res_GetAllOptedInfo_0
+//@   ensures[C18.oeg.avsusd]    defined(res_GetAllAVSUSDValues_0) && r0.AVSUSDValues == res_GetAllAVSUSDValues_0
+//@   ensures[C18.oeg.opusd]     defined(res_GetAllOperatorUSDValues_0) && r0.OperatorUSDValues == res_GetAllOperatorUSDValues_0
+//@   ensures[C18.oeg.slash]     defined(res_GetAllSlashStates_0) && r0.SlashStates == res_GetAllSlashStates_0
+//@   ensures[C18.oeg.prevkeys]  defined(res_GetAllPrevConsKeys_0) && r0.PreConsKeys == res_GetAllPrevConsKeys_0
+//@   ensures[C18.oeg.removals]  defined(res_GetAllOperatorKeyRemovals_0) && r0.OperatorKeyRemovals == res_GetAllOperatorKeyRemovals_0
+//@   ensures[C18.oeg.reverse]   defined(res_GetAllConsAddrsToOperators_0)
+
+// C18 (a previous key restored from genesis resolves to its operator again, as it did on the exported chain: it stays
+// slashable until its unbonding has ended - C07): every restored record also restores the reverse lookup of its key.
+//@ func (*Keeper).SetAllPrevConsKeys
+//@   flag noframe
+//@   flag pure=ParseJoinedStoreKey,AccAddressFromBech32,NewWrappedConsKeyFromHex,ToTmProtoKey,ToConsAddr
+//@ loop #1
+//@   invariant true
+//@   step[C18.sapck.reverse,C07.sapck.reverse] defined(res_ToConsAddr_0) && get(ctx, "operator", opRevKey(chainID, res_ToConsAddr_0)) == opAccAddr
